@@ -1,6 +1,14 @@
 """Which obligations belong to which property (dependency closure of its contracts)."""
 
-UNIT_RLIMIT = {}      # unit -> --rlimit
+DEFAULT_RLIMIT = 50
+
+
+class _RL(dict):
+    def get(self, k, d=None):
+        return dict.get(self, k, DEFAULT_RLIMIT)
+
+
+UNIT_RLIMIT = _RL({"div_small": 80, "mul_redc": 80})      # unit -> --rlimit (Verus default is 10; 5x head-room over the measured maximum)
 UNIT_TIMEOUT = {"knuth": 1500, "addmul": 900}     # unit -> seconds
 UNIT_EXPECT = {       # unit -> minimum number of verified functions on the unchanged tree (vacuity guard)
     "core": 31, "add": 29, "kernels": 79, "addmul": 71, "addmul_n": 73, "mul": 51, "div_small": 183, "knuth": 145, "mul_redc": 69, "basics": 22, "pow": 38, "divw": 54,
